@@ -109,6 +109,9 @@ func (f *Frame) collectDebug() {
 				name := ""
 				if d.Object() != nil {
 					name = d.Object().Name()
+					if v, ok := d.Object().(*types.Var); ok && v.IsField() {
+						continue // a selector's field, not a variable
+					}
 				}
 				if name == "" {
 					continue
@@ -678,6 +681,9 @@ func (f *Frame) lookupVarFrom(name string, d0 *ssa.BasicBlock, st *State) (TV, b
 					}
 				}
 			case *ssa.DebugRef:
+				if fv, isVar := in.Object().(*types.Var); isVar && fv.IsField() {
+					continue
+				}
 				if in.Object() != nil && in.Object().Name() == name {
 					if tv, ok := cellOf(in.Object()); ok {
 						return tv, true
